@@ -43,8 +43,16 @@ def run(ctx):
     if ctx.tier == "quick":
         args = ["-exh", "1", "-n", "80"]
     else:
-        args = ["-exh", "2", "-n", "5000", "-par", "8"]
+        args = ["-exh", "2", "-n", "15000", "-par", "8"]
     only = os.environ.get("C05_ONLY")
+    if ctx.replay:
+        rp = json.load(open(ctx.replay))
+        only = rp.get("case")
+        ctx.env["VERIF_SEED"] = str(rp.get("seed", ctx.seed))
+        if rp.get("tier") == "thorough":
+            args = ["-exh", "2", "-n", "15000", "-par", "8"]
+        else:
+            args = ["-exh", "1", "-n", "80"]
     if only:
         args += ["-only", only]
     cases = ctx.harness("c05", args, timeout=3000)
